@@ -370,6 +370,8 @@ func (mr *memRepo) BlobCreate(opts ...BlobOpt) (BlobCreator, string, error) {
 			ok = false
 		}
 		if ok {
+			// the content was just pushed again, refresh the time used by the GC grace period
+			b.m.mod = time.Now()
 			return nil, "", types.ErrBlobExists
 		}
 	}
